@@ -216,6 +216,20 @@ impl<'g, 's> ParserGenerator<'g, 's> {
     }
 
     fn generate(&self, out_dir: &Path) -> Result<()> {
+        // Production kinds are made by joining the rule name with the
+        // production kind or index and must be unique.
+        let mut prod_kinds = std::collections::BTreeSet::new();
+        for production in &self.grammar.productions {
+            let prod_kind = self.prod_kind(production);
+            if !prod_kinds.insert(prod_kind.clone()) {
+                return Err(Error::Error(format!(
+                    "Production kind '{prod_kind}' is not unique. \
+                     Rename the rule or the kind of the production '{}'.",
+                    production.to_string(self.grammar)
+                )));
+            }
+        }
+
         let mut ast: Vec<syn::Stmt> = vec![];
         ast.extend(self.part_generator.header(self)?);
         ast.extend(self.part_generator.parser_header(self)?);
